@@ -58,6 +58,16 @@ var vC17Programs = []struct {
 	{`(struct Crate [(field Tags: ([]string) e:0) (field Next: (* Crate) e:1)]) (def d (Dog Name: "rover" Number: 9001)) (def c (Crate Tags: ["a"])) (hset c Next: d)`, -1},
 	{`(struct Crate [(field Tags: ([]string) e:0) (field Next: (* Crate) e:1)]) (def d (Dog Name: "rover" Number: 9001)) (def c (Crate Tags: ["a"])) (hset c Next: (& d))`, -1},
 	{`(struct Crate [(field Tags: ([]string) e:0) (field Next: (* Crate) e:1)]) (def d (Dog Name: "rover" Number: 9001)) (def c (Crate Tags: ["a"])) (def c2 (Crate Tags: [])) (hset c Next: (& c2)) (hset c Tags: []) (+ 0 d.Number)`, 1},
+	// slices whose elements are declared structs, slices or pointers: the element type is part of the field's type
+	{`(def d (Dog Name: "rover" Number: 9001)) (struct Wheel [(field R: int64 e:0)]) (struct Engine [(field P: int64 e:0)]) (struct Cart [(field Ws: ([]Wheel) e:0)]) (def c (Cart Ws: [(Wheel R: 1)])) (hset c Ws: [(Engine P: 9001)])`, -1},
+	{`(struct Wheel [(field R: int64 e:0)]) (struct Engine [(field P: int64 e:0)]) (struct Cart [(field Ws: ([]Wheel) e:0)]) (def c (Cart Ws: [(Wheel R: 1)])) (hset c Ws: [(Wheel R: 9001)]) (+ 0 (hget (aget (hget c Ws:) 0) R:))`, 1},
+	{`(struct Wheel [(field R: int64 e:0)]) (struct Engine [(field P: int64 e:0)]) (struct Cart [(field Ws: ([]Wheel) e:0)]) (def r (Cart Ws: [(Engine P: 9001)]))`, -2},
+	{`(def d (Dog Name: "rover" Number: 9001)) (struct Wheel [(field R: int64 e:0)]) (struct Engine [(field P: int64 e:0)]) (struct Cart [(field Ws: ([]Wheel) e:0)]) (def c (Cart Ws: [])) {c.Ws = [(Engine P: 9001)]}`, -1},
+	{`(def d (Dog Name: "rover" Number: 9001)) (struct Grid [(field Rows: ([]([]int64)) e:0)]) (def g (Grid Rows: [[1 2]])) (hset g Rows: [["a"]])`, -1},
+	{`(struct Grid [(field Rows: ([]([]int64)) e:0)]) (def g (Grid Rows: [[1 2]])) (hset g Rows: [[9001 2] [3]]) (+ 0 (aget (aget (hget g Rows:) 0) 0))`, 1},
+	{`(def d (Dog Name: "rover" Number: 9001)) (struct Grid [(field Rows: ([]([]int64)) e:0)]) (def g (Grid Rows: [[1 2]])) (hset g Rows: [1 2])`, -1},
+	{`(def d (Dog Name: "rover" Number: 9001)) (struct Wheel [(field R: int64 e:0)]) (struct Engine [(field P: int64 e:0)]) (struct Cart [(field Ps: ([](* Wheel)) e:0)]) (def e (Engine P: 9001)) (def c (Cart Ps: [])) (hset c Ps: [(& e)])`, -1},
+	{`(def d (Dog Name: "rover" Number: 9001)) (struct Wheel [(field R: int64 e:0)]) (struct Engine [(field P: int64 e:0)]) (struct Cart [(field Ws: ([]Wheel) e:0) (field Es: ([]Engine) e:1)]) (def c (Cart Ws: [(Wheel R: 1)] Es: [(Engine P: 2)])) (hset c Es: c.Ws)`, -1},
 	// nil is accepted where the language says so
 	{`(def d (Dog Name: "rover" Number: 9001)) (hset d Name: nil) (+ 0 d.Number)`, 1},
 }
